@@ -352,6 +352,31 @@ theorem concat_rejects (dim : Dim) (base : PD) (rest : List PD) (hwf : ∀ b ∈
   · exact .inr (.inr (.inl h))
   · exact .inr (.inr (.inr h))
 
+/-- **Adjacent, matching pieces are joined — every dimensionality, any number of pieces.** Well-formed arrays of one
+dimensionality `≥ dim.k` with the same rate, (time axis) each starting at the sample after its predecessor's last,
+(not concatenating channels) the same labels, (not concatenating epochs) the same metadata, and the same shape off
+the concatenation axis: `concat` succeeds; the result has the first piece's `s0` and `fs`, the labels / metadata of the
+pieces in order along a concatenated channel / epoch axis (else the common ones), the axis lengths added, and the data
+of `np.concatenate` in its simplest form (`joinData`: for every outer index, the blocks of all pieces in turn). -/
+theorem concat_adjacent (dim : Dim) (base : PD) (rest : List PD) (hwf : ∀ b ∈ base :: rest, WF b)
+    (hnd : ∀ b ∈ rest, b.ndim = base.ndim) (hk : dim.k ≤ base.ndim)
+    (hfs : ∀ b ∈ rest, b.fs = base.fs)
+    (hs0 : dim = .time → ∀ (i : Nat) (h : i < rest.length),
+      rest[i].s0 = base.s0 + base.nTime + ((rest.take i).map fun b => (b.nTime : Int)).sum)
+    (hch : dim ≠ .channel → ∀ b ∈ rest, b.channel = base.channel)
+    (hmd : dim ≠ .epoch → ∀ b ∈ rest, b.metadata = base.metadata)
+    (hsh : ∀ b ∈ rest, b.shape.take (base.ndim - dim.k) = base.shape.take (base.ndim - dim.k) ∧
+      b.shape.drop (base.ndim - dim.k + 1) = base.shape.drop (base.ndim - dim.k + 1)) :
+    concat (base :: rest) dim = .ok
+      ⟨base.shape.take (base.ndim - dim.k) ++ [((base :: rest).map fun b => b.shape.getD (base.ndim - dim.k) 0).sum] ++
+          base.shape.drop (base.ndim - dim.k + 1),
+        joinData (base.ndim - dim.k) (prod (base.shape.take (base.ndim - dim.k)))
+          ((base :: rest).map fun b => (b.shape, b.data)),
+        base.s0, base.fs, joinChan dim base (base :: rest), joinMeta dim base (base :: rest)⟩ :=
+  concat_adjacent_core dim base rest hwf
+    (by intro b hb; simp only [List.mem_cons] at hb; rcases hb with rfl | hb; rfl; exact hnd b hb) hk
+    ⟨hfs, fun hd => (checkS0_iff rest _).2 (hs0 hd), hch, hmd⟩ hsh
+
 /-- **Arithmetic, copies and dtype casts keep annotations**: `__array_finalize__` on a result of the same shape
 copies `s0`, `fs`, channel and metadata unchanged (for every well-formed array). -/
 theorem finalize_keeps (a : PD) (hwf : WF a) (data' : List Nat) :
@@ -516,6 +541,9 @@ example : (Item.ilist [0, 2]).simple ∧ (Item.ilist [0, 2]).selects ∧ (Item.i
 /-- `x[[0, 2], [0], :]`: two list entries of lengths 2 and 1 — hypotheses of `two_advanced_boundary`; lengths differ. -/
 example : itemSel (.ilist [0, 2]) 3 = .ok (.fancy [0, 2]) ∧ itemSel (.ilist [0]) 2 = .ok (.fancy [0]) ∧
     ([0, 2] : List Nat).length ≠ ([0] : List Nat).length := ⟨rfl, rfl, by decide⟩
+/-- two 3-D pieces joined along the channel axis: hypotheses of `concat_adjacent` (shapes agree off axis 1). -/
+example : ([1, 2, 3] : List Nat).take (3 - Dim.channel.k) = ([1, 1, 3] : List Nat).take (3 - Dim.channel.k) ∧
+    ([1, 2, 3] : List Nat).drop (3 - Dim.channel.k + 1) = ([1, 1, 3] : List Nat).drop (3 - Dim.channel.k + 1) := by decide
 /-- cuts `[-1, 5]` on the channel axis (2 channels) of a 3-D array: clamped to `[1, 2]`, nondecreasing. -/
 example : Dim.channel.k ≤ PD.ndim ⟨[2, 2, 1], [0, 1, 2, 3], 5, 1728, .many [none, some "b"], .many [0, 1]⟩ ∧
     (([-1, 5] : List Int).map (clampPos · (axisLen ⟨[2, 2, 1], [0, 1, 2, 3], 5, 1728, .many [none, some "b"], .many [0, 1]⟩
